@@ -47,7 +47,8 @@ class BatchEngine(Engine):
     probes = ('set_order_choice_points', 'topo_choice_points', 'graphs_compared', 'configs_with_ignore',
               'configs_with_block', 'configs_with_disable', 'configs_with_noexpand', 'external_nodes',
               'file_graph_passes', 'reverse_passes', 'plan_passes', 'ignored_items_processed',
-              'expected_runtime_errors', 'case_colliding_paths', 'graph_differs_from_reference')
+              'expected_runtime_errors', 'case_colliding_paths', 'graph_differs_from_reference',
+              'ir_edits_between_passes')
     nontrivial_rule = ('a run is non-trivial if the set-order or topological-order seam had >= 1 choice point with '
                        '>= 2 alternatives; distinct = digest of (project, config, observed graph / probe history)')
     hashseed_independent = False
@@ -86,7 +87,14 @@ class BatchEngine(Engine):
                     'process_ignored': g.flip('pign', 1, 3),
                     'plan': g.flip('plan', 1, 4),
                 })
-            if any(ps['item_filter'] != 'proc' for ps in scen['passes']):
+            if len(scen['passes']) >= 2 and g.flip('edit', 1, 3):
+                # between two passes a transformation (without creates/renames flags) removes a plain call
+                cands = [(p, i) for p, P in proj['procs'].items() for i, c in enumerate(P['calls'])
+                         if c['via'] == 'plain' and not P.get('prefix')]
+                if cands:
+                    p, i = g.pick('editcall', cands)
+                    scen['passes'].insert(1, {'edit': p, 'drop_call': i})
+            if any(ps.get('item_filter', 'proc') != 'proc' for ps in scen['passes']):
                 # documented: processing module / typedef items requires enable_imports
                 cfg['default']['enable_imports'] = True
         return scen
@@ -278,7 +286,8 @@ class BatchEngine(Engine):
                 continue
             if obs[0] != 'ok':
                 continue
-            if set(obs[1]) != set(base[1]) or obs[2] != base[2]:
+            cyc = {e for a, b in ref['cycles'] for e in ((a, b), (b, a))}
+            if set(obs[1]) != set(base[1]) or (obs[2] - cyc) != (base[2] - cyc):
                 dn = sorted(set(obs[1]) ^ set(base[1]))
                 de = sorted(obs[2] ^ base[2])
                 run.violate('graph-unstable', f'graph differs between two constructions of the same project '
@@ -308,7 +317,18 @@ class BatchEngine(Engine):
             run.violate('closure-nodes', f'graph nodes differ from the pruned dependency closure: missing '
                                          f'{missing[:6]}, unexpected {extra[:6]}')
             return
-        if edges != ref['edges']:
+        ref_edges = set(ref['edges'])
+        edges = set(edges)
+        for a, b in ref['cycles']:
+            present = {(a, b), (b, a)} & edges
+            if len(present) != 1:
+                run.violate('recursion-cycle', f'the mutual recursion {a} <-> {b} of two RECURSIVE procedures must '
+                                               f'be broken by removing exactly one of the two edges; the graph '
+                                               f'keeps {sorted(present)}')
+            edges -= {(a, b), (b, a)}
+            ref_edges -= {(a, b), (b, a)}
+        if edges != ref_edges:
+            ref = dict(ref, edges=ref_edges)
             run.violate('closure-edges', f'graph edges differ from the closure: missing '
                                          f'{sorted(ref["edges"] - edges)[:6]}, unexpected '
                                          f'{sorted(edges - ref["edges"])[:6]}')
@@ -387,6 +407,9 @@ class BatchEngine(Engine):
             run.violate('graph-build-failed', f'Scheduler construction raised {type(e).__name__}: {str(e)[:200]}')
             return
         nodes, edges = self.observe_graph(sched)
+        cyc = {e for a, b in ref['cycles'] for e in ((a, b), (b, a))}
+        # the direction in which a recursion cycle was broken is Loki's choice: adopt it
+        ref['edges'] = (ref['edges'] - cyc) | (edges & cyc)
         if set(nodes) != set(ref['nodes']) or edges != ref['edges']:
             # C21's business; C22's oracle needs an agreed graph to speak about
             run.probe('graph_differs_from_reference')
@@ -418,7 +441,7 @@ class BatchEngine(Engine):
                     file_of[name] = f['path'].lower()
                     m = next(m for m in proj['mods'] if m['name'] == name)
                     for pn in m['procs']:
-                        file_of[f'{name}#{pn}'] = f['path'].lower()
+                        file_of[BG.item_name(proj, pn)] = f['path'].lower()
                     for t in m['types']:
                         file_of[f'{name}#{t}'] = f['path'].lower()
                     if m.get('iface'):
@@ -426,7 +449,18 @@ class BatchEngine(Engine):
                         for ip in m['iface']['procs']:
                             file_of[f'{name}#{ip}'] = f['path'].lower()
         Probe = self.probe_class()
+        import copy  # pylint: disable=import-outside-toplevel
+        proj_now = proj
         for pi, ps in enumerate(scenario['passes']):
+            if 'edit' in ps:
+                if ps['edit'] not in proj_now['procs'] or ps['drop_call'] >= len(proj_now['procs'][ps['edit']]['calls']):
+                    continue
+                proj_now = copy.deepcopy(proj_now)
+                dropped = proj_now['procs'][ps['edit']]['calls'].pop(ps['drop_call'])
+                self.apply_edit(sched, BG.item_name(proj, ps['edit']), BG.ename(proj, dropped['to']))
+                run.probe('ir_edits_between_passes')
+                run.event('edit', ps['edit'], dropped['to'])
+                continue
             log = []
             t = Probe(log)
             t.item_filter = filters[ps['item_filter']]
@@ -503,7 +537,7 @@ class BatchEngine(Engine):
                         run.violate('mode', f'{tag}: {n} received mode {r["mode"]!r}, configured {ic.get("mode")!r}')
                     if r['ignored']:
                         run.probe('ignored_items_processed')
-                    self._targets(run, tag, proj, cfg, n, r['targets'])
+                    self._targets(run, tag, proj_now, cfg, n, r['targets'])
             else:
                 files = {}
                 for n in ref['nodes']:
@@ -526,6 +560,20 @@ class BatchEngine(Engine):
                         if fa in pos and fb in pos and (pos[fa] > pos[fb]) != ps['reverse']:
                             run.violate('file-order', f'{tag}: file {fa} (position {pos[fa]}) and the file it depends '
                                                       f'on {fb} (position {pos[fb]}) visited in the wrong order')
+
+    @staticmethod
+    def apply_edit(sched, item_name, callee):
+        """What a transformation without creates/renames flags does: remove the calls to ``callee`` from one
+        routine's IR (applied directly to the item's IR, independent of strict-mode processing rules)."""
+        from loki.ir import nodes as ir, FindNodes, Transformer  # pylint: disable=import-outside-toplevel
+        item = next((it for it in sched.items if it.name.lower() == item_name), None)
+        if item is None or item.ir is None:
+            return
+        routine = item.ir
+        cmap = {c: None for c in FindNodes(ir.CallStatement).visit(routine.body)
+                if str(c.name).lower() == callee.lower()}
+        if cmap:
+            routine.body = Transformer(cmap).visit(routine.body)
 
     @staticmethod
     def _relfile(name, root):
@@ -551,16 +599,18 @@ class BatchEngine(Engine):
     @staticmethod
     def _targets(run, tag, proj, cfg, n, targets):
         """Sandwich check: required names present, excluded names absent, nothing foreign."""
-        p = n.split('#')[-1]
+        p = next((k for k in proj['procs'] if BG.item_name(proj, k) == n), None)
+        if p is None:
+            return
         P = proj['procs'][p]
         c = BG.item_config(cfg, n)
         gdis = cfg['default'].get('disable', [])
         tset = set(targets)
         allowed = set()
         for call in P['calls']:
-            callee = call['to']
-            cname = BG.item_name(proj, callee)
-            Q = proj['procs'][callee]
+            cname = BG.item_name(proj, call['to'])
+            Q = proj['procs'][call['to']]
+            callee = BG.ename(proj, call['to'])
             alias = f'loc_{callee}'
             allowed |= {callee, alias}
             if Q['mod'] and Q['mod'] != P['mod']:
@@ -606,8 +656,8 @@ class BatchEngine(Engine):
             allowed.add(P['external'])
         if P.get('ext_mod') is not None:
             allowed |= {f'missing{P["ext_mod"]}_mod', f'mp{P["ext_mod"]}'}
-        if P['recursive']:
-            allowed.add(p)
+        if P['recursive'] or P.get('prefix'):
+            allowed.add(BG.ename(proj, p))
         foreign = sorted(tset - allowed)
         if foreign:
             run.violate('targets-foreign', f'{tag}: {n} received targets {foreign} that name nothing it calls, '
